@@ -3,6 +3,7 @@ import SaModel.Spec.WF
 import SaModel.Lemmas.C03Assemble
 import SaModel.Lemmas.C03WFMain
 import SaModel.Lemmas.C03New
+import SaModel.Lemmas.C03Shape
 /-
 C03 — every produced array is a well-formed Arrow array of the declared field.
 
@@ -182,6 +183,17 @@ theorem finish_wf (ext : Ext) (b : B) (dt : DataType) (nl : Bool) (a : Arr)
     (h : finish ext b = .ok a) : wf dt nl a = true :=
   Lemmas.C03.finish_wf ext b dt nl a hb hw hs hx h
 
+/-- non-vacuity of `finish_wf`: a nullable list of nullable Int32 holding `[[1, null], null]` satisfies every
+hypothesis (so its finished array — bitmaps `[1]`, `[1]`, offsets `[0,2,2]` — is well formed by the theorem) -/
+example : ∃ b, Lemmas.C03.BuiltFor (.list (.mk "element" .int32 true [])) true b ∧ WFB b ∧ Lemmas.C03.Sound b ∧
+    Lemmas.C03.WFX b ∧ (dec b).length = 2 :=
+  ⟨.list "$.a" false ⟨"element", true, []⟩ (some [true, false]) [0, 2, 2]
+      (.leaf "$.a.element" (.int .i32) (some [true, false]) [1, 0]),
+    ⟨.mk "element" .int32 true [], by simp, rfl, rfl, by simp [Lemmas.C03.BuiltFor, Lemmas.C03.leafDT, Lemmas.C03.intDT,
+      Field.dataType, Field.nullable]⟩,
+    by simp [WFB, VLen, OffsOK, dec, maskNull], by simp [Lemmas.C03.Sound],
+    by simp [Lemmas.C03.WFX, dec, maskNull, offMax, Lemmas.C03.leafRange, inRng, primRange, primOfInt], by decide⟩
+
 /-- the builder created for a field stands for it (every Map type with exactly two entry children) -/
 theorem newB_builtFor (path : String) (f : Field) (b : B) (hm : Lemmas.C03.Map2F f) (h : newB path f = .ok b) :
     Lemmas.C03.BuiltFor f.dataType f.nullable b :=
@@ -246,7 +258,7 @@ operational refinement (agent-refine: `push b x = ok b' → WFB b → WFB b' ∧
              value of the finished dictionary
   * `hwfx`   `WFX root`: stored values within their physical range, offsets ≤ i32/i64 max (`increment_last`
              checks), pushed strings valid UTF-8 (Rust `&str`) -/
-theorem C03_wf_partial (ext : Ext) (fields : List Field) (rows : List SVal) (arrs : List Arr)
+theorem C03_wf_root_partial (ext : Ext) (fields : List Field) (rows : List SVal) (arrs : List Arr)
     (hwfb : ∀ root, runRows ext fields rows = .ok root → WFB root)
     (hshape : ∀ root, runRows ext fields rows = .ok root →
       Lemmas.C03.BuiltFor (.struct (Fields.ofList fields)) false root)
@@ -290,6 +302,31 @@ theorem C03_wf_partial (ext : Ext) (fields : List Field) (rows : List SVal) (arr
         have := hget j f ma (by rw [Fields.toList_ofList]; exact hfj) hma
         exact ⟨this.2.2, this.2.1⟩
   | _ => simp [buildArrays, panic] at hba
+
+/-- shape preservation reduced to `push_takeRest` (agent-refine, Lemmas/C10TakePush.lean): `BuiltFor` only depends on
+`takeRest`, so `hpush` is discharged by `Build.push_takeRest ext` -/
+theorem runRows_builtFor (ext : Ext) (fields : List Field) (rows : List SVal) (root : B)
+    (hpush : ∀ (x : SVal) (b b' : B), push ext b x = .ok b' → takeRest b' = takeRest b)
+    (hm : ∀ f ∈ fields, Lemmas.C03.Map2F f) (h : runRows ext fields rows = .ok root) :
+    Lemmas.C03.BuiltFor (.struct (Fields.ofList fields)) false root :=
+  Lemmas.C03.runRows_builtFor ext fields rows root hpush hm h
+
+/-- **C03 (partial), in the form closest to the final statement**: for fields whose Map types have exactly two entry
+children, every array `to_marrow` returns is a well-formed array of its field, one per field, all of one length.
+Interface hypotheses, each discharged by one `exact` after the merge with agent-refine:
+`hpush := Build.push_takeRest ext`, `hwfb` the refinement theorem; `hsound`/`hwfx` see `C03_wf_root_partial`. -/
+theorem C03_wf_partial (ext : Ext) (fields : List Field) (rows : List SVal) (arrs : List Arr)
+    (hmap : ∀ f ∈ fields, Lemmas.C03.Map2F f)
+    (hpush : ∀ (x : SVal) (b b' : B), push ext b x = .ok b' → takeRest b' = takeRest b)
+    (hwfb : ∀ root, runRows ext fields rows = .ok root → WFB root)
+    (hsound : ∀ root, runRows ext fields rows = .ok root → Lemmas.C03.Sound root)
+    (hwfx : ∀ root, runRows ext fields rows = .ok root → Lemmas.C03.WFX root)
+    (h : toMarrow ext fields rows = .ok arrs) :
+    arrs.length = fields.length ∧
+    ∃ n : Nat, ∀ (j : Nat) (f : Field) (a : Arr), fields[j]? = some f → arrs[j]? = some a →
+      WF f a = true ∧ (decodeAll a).length = n :=
+  C03_wf_root_partial ext fields rows arrs hwfb
+    (fun root hr => runRows_builtFor ext fields rows root hpush hmap hr) hsound hwfx h
 
 theorem ArrFields_toList_decode : ∀ (x : ArrFields),
     x.toList.map (fun ma => decodeAll ma.2) = (decodeFields x).map (·.2)
